@@ -146,13 +146,19 @@ int main(int argc, char **argv) {
         if (cli && k == 0 && (i % procEvery == 0 || i < 40) && steps < 20000000) {
           spit(dir + "/in.txt", input);
           std::string o1, o2;
+          // each executable writes its simout<n> files into the working directory: collect (and remove) them after each run
+          auto takeFiles = [&](std::string f[8]) { for (int n = 0; n < 8; n++) { std::string p = dir + "/simout" + std::to_string(n); f[n] = slurp(p); unlink(p.c_str()); } };
+          std::string pf1[8], pf2[8];
           int r1 = runProc({std::string(cli) + "/hextb", R.binPath, "+verilator+seed+" + std::to_string(1 + i % 1000)}, dir, dir + "/in.txt", o1, 300);
+          takeFiles(pf1);
           int r2 = runProc({std::string(cli) + "/hexsim", R.binPath}, dir, dir + "/in.txt", o2, 300);
+          takeFiles(pf2);
           st.add("pairs_process_level");
           size_t nl = o1.find('\n'); std::string after = nl == std::string::npos ? o1 : o1.substr(nl + 1);
           if (r1 < 0 || r2 < 0) viol("process", "abnormal", "hextb status " + std::to_string(r1) + " hexsim status " + std::to_string(r2));
           else if (after != o2) viol("process", "output", "stdout after the banner differs: hextb '" + hexs(after.substr(0, 48)) + "' hexsim '" + hexs(o2.substr(0, 48)) + "'");
           else if (r1 != r2) viol("process", "status", "exit status hextb " + std::to_string(r1) + " hexsim " + std::to_string(r2));
+          else for (int n = 0; n < 8; n++) if (pf1[n] != pf2[n]) { viol("process", "file-stream", "simout" + std::to_string(n) + ": hextb " + std::to_string(pf1[n].size()) + " bytes '" + hexs(pf1[n].substr(0, 48)) + "' hexsim " + std::to_string(pf2[n].size()) + " bytes '" + hexs(pf2[n].substr(0, 48)) + "'"); break; }
           unlink((dir + "/in.txt").c_str()); unlink((dir + "/stdout.txt").c_str());
           std::string rm = "rm -rf '" + dir + "/logs'"; if (system(rm.c_str())) {}
         }
